@@ -33,13 +33,22 @@ STR_POOL = [
     ("", ""), ("init=epsg:4326", ""), ("wms_title", ""), ("MiXeD Case", ""), ("0", ""), ("7", ""),
     ("name with END inside", ""), ("/* not a comment */ x", ""), ("http://x.y/z?a=1&b=2", ""),
     ("Caf\u00e9 \u2013 d\u00e9j\u00e0", "n"), ("a\\\\b", ""), ("key=value", ""), ("%runtime%", ""),
+    # boundary forms: content that itself starts / ends with the other quote character
+    ("'quoted'", "s"), ('"dq"', "q"), ("'[type]' = 'road'", "s"), ("'", "s"), ("x'", "s"), ('"', "q"), ("''", "s"),
+    # escaped occurrences of the double quote (in scope for C01: only *unescaped* output quotes are excluded)
+    ('Pipe 5\\"', "qe"), ('say \\"hi\\" now', "qe"), ('\\"start', "qe"),
+    ("ends with i", ""), ("i", ""), ("#not a colour", ""), ("0x1F", ""), ("1 2 3", ""), ("a  b", ""), ("NULL", ""),
 ]
 # contents that look like something else; only used where a check asks for them explicitly
 LOOKALIKE_POOL = [("(a)", "x"), ("/re/", "x"), ("{a,b}", "x"), ("[bind]", "x"), ("#FFF", "h")]
 
-INT_POOL = ["0", "1", "7", "42", "255", "+3", "-1", "-12", "007", "1000000", "10", "5"]
-FLOAT_POOL = ["0.5", "1.0", "-2.5", "4e2", "+3.25", "1e-3", "2.5E+3", "-0.25", "12.75", "100.0", "3.14159", "1.5e0"]
-HEX_POOL = ["#FF00aa", "#abc", "#ABCDEF80", "#00ff00", "#F0F", "#a1B2c3"]
+INT_POOL = ["0", "1", "7", "42", "255", "+3", "-1", "-12", "007", "1000000", "10", "5", "123456789012", "-2147483649", "65536"]
+FLOAT_POOL = ["0.5", "1.0", "-2.5", "4e2", "+3.25", "1e-3", "2.5E+3", "-0.25", "12.75", "100.0", "3.14159", "1.5e0",
+              # precision and exponent boundary forms (Python prints 1e-05, 2e+16 for these)
+              "-122.4194155", "37.7749295", "0.0000004", "1234567.891011", "0.00001", "-0.00002", "20000000000000000.0",
+              "0.1", "5.0", "-0.0", "99999.999999"]
+HEX_POOL = ["#FF00aa", "#abc", "#ABCDEF80", "#00ff00", "#F0F", "#a1B2c3", "#aabbccDD", "#00ff00C8", "#112233aB", "#FFFFFFFF",
+            "#AbC", "#000000", "#fffffe", "#0A0B0C0D"]
 BIND_POOL = ["name", "POP_2020", "size", "Angle", "x-y", "a:b"]
 REGEX_POOL = ["/^[0-9]+$/", "/abc/", "/^a.*z$/i", "/(x|y)/", "/\\d+/"]
 # expressions already in the normal form the transformer stores (C10: re-parsing is stable)
@@ -161,11 +170,14 @@ class Concretiser:
         raise KeyError(sh)
 
     def quote(self, s, prefer):
-        """wrap s in a quote character that does not occur in it"""
+        """wrap s in a quote character that does not occur *unescaped* in it (the grammar lets a
+        backslash-escaped quote stand inside a string delimited by that quote)"""
+        def usable(q):
+            return re.search(r"(?<!\\)" + q, s) is None and not s.endswith("\\")
         q = prefer
-        if q in s:
+        if not usable(q):
             q = "'" if q == '"' else '"'
-        if q in s:
+        if not usable(q):
             raise ValueError("both quotes in %r" % s)
         return q + s + q
 
